@@ -11,6 +11,7 @@ mod c08;
 mod c12;
 mod c14;
 mod case;
+mod clock;
 mod corpus;
 mod entropy;
 mod exec;
@@ -44,6 +45,7 @@ pub fn parse_tier(s: &str) -> plan::Tier {
 
 pub fn self_checks() -> Result<(), String> {
     entropy::self_check()?;
+    clock::self_check()?;
     simfs::self_check()?;
     Ok(())
 }
@@ -175,7 +177,7 @@ fn main() {
             // debugging aid: print a file with trivia inserted: trivia <file> <seed>
             let src = std::fs::read_to_string(&args[2]).expect("read");
             let seed: u64 = args[3].parse().expect("seed");
-            print!("{}", simfs::insert_trivia(&src, seed));
+            print!("{}", simfs::insert_trivia(&src, seed, args.iter().any(|a| a == "--no-splices")));
         }
         "selfcheck" => match self_checks() {
             Ok(()) => println!("selfcheck ok"),
